@@ -15,7 +15,7 @@ From Coq Require Import String ZArith QArith Bool Arith List Permutation.
 From GT Require Import Base.UTree Spec.Obs Spec.GenShape Spec.Counting Model.Reroot Model.Rand Model.Rand2
      Model.TreeGen Model.Sampling
      Proofs.SamplingBase Proofs.SamplingPerm Proofs.SamplingRepl Proofs.SamplingRes Proofs.SamplingShuffle
-     Proofs.SamplingCode Proofs.SamplingRefute Proofs.TreeGenUnif.
+     Proofs.SamplingCode Proofs.SamplingRefute Proofs.TreeGenUnif Proofs.TreeGenUnif2.
 Import ListNotations.
 Local Close Scope Q_scope.
 
@@ -176,6 +176,16 @@ Theorem C20_uniform_unrooted_injective :
     topo_key false t = topo_key false t' -> cs = cs'.
 Proof. exact uniform_unrooted_injective. Qed.
 Print Assumptions C20_uniform_unrooted_injective.
+
+(** and these are exactly the topologies listed by the enumerator (all of them, C16): every
+    unrooted labelled binary topology on Tip0..Tip(n-1) is drawn with probability 1/(2n-5)!! *)
+Theorem C20_uniform_unrooted_complete :
+  forall n ts, 3 <= n -> all_topologies n false (map tip_name (seq 0 n)) = Ok ts ->
+    forall key, In key (map (topo_key false) ts) <->
+      exists cs ls t, in_bounds cs (uniform_bounds n false) /\ uniform_tree n false cs ls = GOk t /\
+                      topo_key false t = key.
+Proof. exact uniform_unrooted_complete. Qed.
+Print Assumptions C20_uniform_unrooted_complete.
 
 (** rooted: FALSE of the code.  The generator never inserts above the root: it has
     2*4*...*(2n-4) equally likely choice vectors for (2n-3)!! rooted topologies *)
